@@ -49,6 +49,35 @@ var foreignStructs = map[string]struct {
 		"Status": "Int32", "Constant": "Int64", "Precision": "Int64", "Tolerance": "Int64", "Time": "T:Int64,Int64", "Tick": "Int64"}},
 }
 
+// opaqueMethods: methods of foreign objects passed as parameters (`cs tls.ConnectionState`): the
+// object is dropped from the parameter list and each method becomes a FUNCTION-typed parameter
+// applied to the translated arguments of every call site (deterministic for the duration of the
+// call: the same connection state, the same arguments, the same answer).
+var opaqueMethods = map[string]struct {
+	args []string
+	ret  string
+}{
+	"tls.ConnectionState.ExportKeyingMaterial": {[]string{"Str", "L_UInt8", "Int64"}, "T:L_UInt8,Bool"},
+}
+
+func opaqueType(t ast.Expr) string {
+	se, ok := t.(*ast.SelectorExpr)
+	if !ok {
+		return ""
+	}
+	id, ok := se.X.(*ast.Ident)
+	if !ok {
+		return ""
+	}
+	n := id.Name + "." + se.Sel.Name
+	for k := range opaqueMethods {
+		if strings.HasPrefix(k, n+".") {
+			return n
+		}
+	}
+	return ""
+}
+
 var forceOut = map[string]bool{} // leaves translated with the Go.Out outcome whatever they need
 
 func isLoggerType(t ast.Expr) bool {
@@ -470,6 +499,20 @@ func (c *leafCtx) expr8(e ast.Expr, want string) (string, string, bool) {
 			}
 		}
 	case *ast.CompositeLit:
+		if at, ok := x.Type.(*ast.ArrayType); ok && at.Len == nil { // []byte{0x00, …}
+			if id, ok := at.Elt.(*ast.Ident); ok && (id.Name == "byte" || id.Name == "uint8") {
+				var es []string
+				for _, el := range x.Elts {
+					if _, keyed := el.(*ast.KeyValueExpr); keyed {
+						c.fail("keyed byte-slice literal")
+						return "0", want, true
+					}
+					e, _ := c.expr(el, "UInt8")
+					es = append(es, e)
+				}
+				return "([" + strings.Join(es, ", ") + "] : List UInt8)", "L_UInt8", true
+			}
+		}
 		if se, ok := x.Type.(*ast.SelectorExpr); ok {
 			if pk, ok := se.X.(*ast.Ident); ok {
 				if fs, ok := foreignStructs[pk.Name+"."+se.Sel.Name]; ok {
@@ -496,6 +539,12 @@ func (c *leafCtx) expr8(e ast.Expr, want string) (string, string, bool) {
 				}
 			}
 		}
+	case *ast.BasicLit:
+		if x.Kind == token.STRING && (want == "" || want == "Str") {
+			if v, err := strconv.Unquote(x.Value); err == nil {
+				return leanString(v), "Str", true
+			}
+		}
 	case *ast.SliceExpr: // b[lo:hi] as a value, on a byte-slice parameter the function does not write
 		if x.Low != nil && x.High != nil && x.Max == nil {
 			if id, ok := x.X.(*ast.Ident); ok && c.vars[id.Name] == "L_UInt8" && !c.madeHere[id.Name] {
@@ -514,6 +563,29 @@ func (c *leafCtx) expr8(e ast.Expr, want string) (string, string, bool) {
 			}
 		}
 	case *ast.CallExpr:
+		if f, ok := x.Fun.(*ast.SelectorExpr); ok { // a method of an opaque parameter: a function-typed external applied to the arguments
+			if id, ok := f.X.(*ast.Ident); ok {
+				if ot, ok := c.opaque[id.Name]; ok {
+					m, ok := opaqueMethods[ot+"."+f.Sel.Name]
+					if !ok || len(m.args) != len(x.Args) {
+						c.fail("unsupported method %s of %s", f.Sel.Name, ot)
+						return "0", want, true
+					}
+					var as, ts []string
+					for i, a := range x.Args {
+						e, t := c.expr(a, m.args[i])
+						if t != "" && t != m.args[i] {
+							c.fail("argument %d of %s.%s: %s for %s", i, ot, f.Sel.Name, t, m.args[i])
+						}
+						as = append(as, e)
+						ts = append(ts, leanTypeName(m.args[i]))
+					}
+					name := "ext_" + id.Name + "_" + f.Sel.Name
+					c.addExtern(name, strings.Join(ts, " → ")+" → "+tupleTypeName(m.ret))
+					return "(" + name + " " + strings.Join(as, " ") + ")", m.ret, true
+				}
+			}
+		}
 		if f, ok := x.Fun.(*ast.SelectorExpr); ok && f.Sel.Name == "Uint16" && len(x.Args) == 1 { // binary.BigEndian.Uint16(b[off:])
 			if inner, ok := f.X.(*ast.SelectorExpr); ok && inner.Sel.Name == "BigEndian" {
 				if pk, ok := inner.X.(*ast.Ident); ok && pk.Name == "binary" {
@@ -627,6 +699,32 @@ func (c *leafCtx) stmt8(s ast.Stmt, next func(string) string, ind string) (strin
 				if id, ok := st.Lhs[0].(*ast.Ident); ok {
 					if r, ok := c.copyTail8(ce, id, next, ind); ok {
 						return r, true
+					}
+				}
+			}
+		}
+		if len(st.Lhs) == 2 && len(st.Rhs) == 1 && st.Tok == token.ASSIGN { // x.f, err = call(…): a tuple result, a field path on the left
+			if ce, ok := st.Rhs[0].(*ast.CallExpr); ok {
+				if _, isPath := st.Lhs[0].(*ast.SelectorExpr); isPath {
+					l1, _ := st.Lhs[1].(*ast.Ident)
+					e, t := c.expr(ce, "")
+					parts := strings.Split(strings.TrimPrefix(t, "T:"), ",")
+					if l1 != nil && strings.HasPrefix(t, "T:") && len(parts) == 2 && c.vars[l1.Name] == parts[1] {
+						_, ft := c.expr(st.Lhs[0], "")
+						if ft != parts[0] {
+							c.fail("assignment of a %s to a field of type %s", parts[0], ft)
+							return "0", true
+						}
+						pre := c.takeBinds(ind)
+						a, b := c.fresh("_t"), c.fresh("_t")
+						name, val, ok := c.assignPath(st.Lhs[0], a)
+						if !ok {
+							c.fail("unsupported assignment target")
+							return "0", true
+						}
+						base := baseIdent(st.Lhs[0])
+						return pre + "let (" + a + ", " + b + ") := " + e + nl + c.letLine(name, c.vars[base.Name], val) + nl +
+							c.letLine(c.lname(l1.Name), parts[1], b) + nl + next(ind), true
 					}
 				}
 			}
